@@ -25,3 +25,15 @@ pub(crate) fn budget_case<const MAXB: usize>(op: OpFn, specs: &[A], mask: ClvmFl
 }
 
 include!("gen_c02.rs");
+
+pub(crate) fn probe_case(op: OpFn, specs: &[A]) {
+    let mut e = Env::new();
+    let args = e.list(specs);
+    let flags = any_flags(cost_flags());
+    let b: Cost = kani::any();
+    let r = op(&mut e.a, args, b, flags);
+    if let Err(err) = &r { assert!(!is_internal(err), "C25/op-never-internal-error"); }
+    std::mem::forget(r);
+    std::mem::forget(e);
+}
+include!("gen_opp.rs");
